@@ -6,17 +6,32 @@ Model: `Model/Sighash.lean` (mirrors `_signature_hash`, `delete_subscript`, `_de
 of `SegwitChecker`, the Bcash/Bgold/Groestlcoin overrides).  Spec: `Spec/Sighash.lean` (Core's
 `CTransactionSignatureSerializer`, `FindAndDelete`, BIP143, the fork-id variants), written independently.
 SHA-256 is a function symbol: digests are equal because the digested bytes are.
-`Tx.WF` = every field in its wire range; `Complete s` = every push of `s` is complete; `LenOk s` = `|s| < 2^63`.
+`Tx.WF` = every field in its wire range; `Complete s` = every push of `s` is complete; `TailWritten s` = Core's
+`SerializeScriptCode` writes the whole undecodable rest of `s` (implied by `Complete s`); `LenOk s` = `|s| < 2^63`.
 -/
 namespace Pycoin.Sighash
 open Pycoin Pycoin.Wire Pycoin.Spec.Sighash Pycoin.Spec.Wire
 
 /-! ## legacy -/
 
-/-- C04.legacy_preimage_eq: for every transaction with fields in range, every input index, every script code whose
-pushes are complete and every 32-bit hash-type word, the bytes `_signature_hash` digests are the bytes Core's
-`CTransactionSignatureSerializer` writes (every NONE/SINGLE/ANYONECANPAY combination, any value of the unused bits),
-and the early return happens exactly when consensus returns the constant one -/
+/-- C04.legacy_preimage_eq (widest scope): for every transaction with fields in range, every input index, every 32-bit
+hash-type word and every script code of which Core's `SerializeScriptCode` writes the whole undecodable rest
+(`TailWritten`: every script whose pushes are complete, and those that end in a push opcode without any payload byte),
+the bytes `_signature_hash` digests are the bytes Core's `CTransactionSignatureSerializer` writes (every
+NONE/SINGLE/ANYONECANPAY combination, any value of the unused bits), and the early return happens exactly when
+consensus returns the constant one.  For the remaining script codes see `C04_codeseparator_strip` (what the two
+serialisations share) and `C04_codeseparator_strip_refuted`. -/
+theorem C04_legacy_preimage_eq_tailWritten (c : Coin) (tx : Tx) (hwf : tx.WF) (idx : Nat) (hidx : idx < tx.ins.length)
+    (script : Bytes) (hc : TailWritten script) (hlen : LenOk script) (ht : Nat) (hht : ht < 2 ^ 32) :
+    Sighash.legacyPreimage c tx script idx ht =
+      .ok (if fHashSingle ht && decide (idx ≥ tx.outs.length) then none
+           else some (Spec.Sighash.legacyPreimage tx idx script ht)) :=
+  legacyPreimage_eq_tw c tx hwf idx hidx script hc hlen ht hht
+
+/-- every script whose pushes are complete is in the scope of the legacy theorems -/
+theorem C04_complete_in_scope (script : Bytes) (hc : Complete script) : TailWritten script := tailWritten_of_complete hc
+
+/-- C04.legacy_preimage_eq: the same for every script code whose pushes are complete (every script that can validate) -/
 theorem C04_legacy_preimage_eq (c : Coin) (tx : Tx) (hwf : tx.WF) (idx : Nat) (hidx : idx < tx.ins.length)
     (script : Bytes) (hc : Complete script) (hlen : LenOk script) (ht : Nat) (hht : ht < 2 ^ 32) :
     Sighash.legacyPreimage c tx script idx ht =
@@ -26,102 +41,133 @@ theorem C04_legacy_preimage_eq (c : Coin) (tx : Tx) (hwf : tx.WF) (idx : Nat) (h
 
 theorem beNat_one : beNat Spec.Sighash.one = Gen.Sighash.singleBugValue := by decide +kernel
 
-/-- C04.legacy_digest_eq: `_signature_hash` of the Bitcoin, Litecoin and Groestlcoin classes returns consensus'
-`SignatureHash` (as the big-endian integer of its 32 bytes), including the constant `0x01‖0^31` for SIGHASH_SINGLE
-without a matching output -/
-theorem C04_legacy_digest_eq (c : Coin) (hc' : requiresForkId c = false) (tx : Tx) (us : List (Option TxOut)) (hwf : tx.WF)
-    (idx : Nat) (hidx : idx < tx.ins.length) (script : Bytes) (hc : Complete script) (hlen : LenOk script)
+/-- C04.legacy_digest_eq (widest scope): `_signature_hash` of the Bitcoin, Litecoin and Groestlcoin classes returns
+consensus' `SignatureHash` (as the big-endian integer of its 32 bytes), including the constant `0x01‖0^31` for
+SIGHASH_SINGLE without a matching output -/
+theorem C04_legacy_digest_eq_tailWritten (c : Coin) (hc' : requiresForkId c = false) (tx : Tx) (us : List (Option TxOut)) (hwf : tx.WF)
+    (idx : Nat) (hidx : idx < tx.ins.length) (script : Bytes) (hc : TailWritten script) (hlen : LenOk script)
     (ht : Nat) (hht : ht < 2 ^ 32) :
     signatureHash c tx us script idx ht =
       .ok (beNat (signatureHashLegacy (sha (legacySingleSha c)) tx idx script ht)) := by
   unfold signatureHash legacySignatureHash signatureHashLegacy
-  simp only [hc', Bool.false_eq_true, if_false, legacyPreimage_eq c tx hwf idx hidx script hc hlen ht hht]
+  simp only [hc', Bool.false_eq_true, if_false, legacyPreimage_eq_tw c tx hwf idx hidx script hc hlen ht hht]
   cases h : (fHashSingle ht && decide (idx ≥ tx.outs.length)) with
   | true => simp [beNat_one]
   | false => simp
 
+/-- C04.legacy_digest_eq: the same for every script code whose pushes are complete -/
+theorem C04_legacy_digest_eq (c : Coin) (hc' : requiresForkId c = false) (tx : Tx) (us : List (Option TxOut)) (hwf : tx.WF)
+    (idx : Nat) (hidx : idx < tx.ins.length) (script : Bytes) (hc : Complete script) (hlen : LenOk script)
+    (ht : Nat) (hht : ht < 2 ^ 32) :
+    signatureHash c tx us script idx ht =
+      .ok (beNat (signatureHashLegacy (sha (legacySingleSha c)) tx idx script ht)) :=
+  C04_legacy_digest_eq_tailWritten c hc' tx us hwf idx hidx script (tailWritten_of_complete hc) hlen ht hht
+
 /-! ## OP_CODESEPARATOR stripping and signature removal -/
 
-/-- C04.codeseparator_strip: `delete_subscript(script, OP_CODESEPARATOR)` followed by the length-prefixed write is
-`SerializeScriptCode`, for every script whose pushes are complete -/
-theorem C04_codeseparator_strip (code : Bytes) (hc : Complete code) :
+/-- C04.codeseparator_strip, for **every** script code: `delete_subscript(script, OP_CODESEPARATOR)` drops the
+one-byte `ab` instructions of the part Core's `GetScriptOp` decodes and keeps the undecodable rest `T` (empty, or
+starting with a push cut short by the end of the script) as it is; the result has the length `SerializeScriptCode`
+announces (`size − #OP_CODESEPARATOR`); and `SerializeScriptCode` writes the same bytes, except that of `T` it writes
+only the `failAdvance T` bytes the failed `GetScriptOp` moved over -/
+theorem C04_codeseparator_strip (code : Bytes) :
+    ∃ body, deleteSubscript code Gen.Sighash.strippedSubscript = .ok (body ++ instrTail code) ∧
+      (body ++ instrTail code).length ≤ code.length ∧
+      serializeScriptCode code =
+        compactSize (body ++ instrTail code).length ++ (body ++ (instrTail code).take (failAdvance (instrTail code))) :=
+  ⟨strippedBody code, strip_serializeScriptCode_all code⟩
+
+/-- C04.codeseparator_strip (exact scope): the length-prefixed write of the stripped script is `SerializeScriptCode`
+**iff** Core writes the whole undecodable rest -/
+theorem C04_codeseparator_strip_iff (code : Bytes) :
+    (∃ stripped, deleteSubscript code Gen.Sighash.strippedSubscript = .ok stripped ∧
+      serializeScriptCode code = varBytes stripped) ↔ TailWritten code := by
+  constructor
+  · rintro ⟨s, h1, h2⟩
+    rw [(strip_serializeScriptCode_all code).1] at h1
+    rw [← Except.ok.inj h1] at h2
+    exact (strip_serializeScriptCode_iff code).mp h2
+  · intro h
+    obtain ⟨s, h1, _, h2⟩ := strip_is_serializeScriptCode_tw code h
+    exact ⟨s, h1, h2⟩
+
+/-- C04.codeseparator_strip for scripts whose pushes are complete (the form the property needs for every script that
+can validate) -/
+theorem C04_codeseparator_strip_complete (code : Bytes) (hc : Complete code) :
     ∃ stripped, deleteSubscript code Gen.Sighash.strippedSubscript = .ok stripped ∧
-      serializeScriptCode code = varBytes stripped := by
-  obtain ⟨s, h1, _, h2⟩ := strip_is_serializeScriptCode code hc
-  exact ⟨s, h1, h2⟩
+      serializeScriptCode code = varBytes stripped :=
+  (C04_codeseparator_strip_iff code).mpr (tailWritten_of_complete hc)
 
-/-- C04.findAndDelete_eq (partial: the extra hypothesis is `Complete script`, i.e. no truncated push): removing a
-signature as `_delete_signature` does equals Core's `FindAndDelete(script, CScript() << sig)` -/
-theorem C04_findAndDelete_eq_partial (script sig : Bytes) (hc : Complete script) (hl : sig.length < 2 ^ 32) :
+/-- C04.findAndDelete_eq, for **every** script: removing a signature as `_delete_signature` does equals Core's
+`FindAndDelete(script, CScript() << sig)` (the walk stops at a push cut short by the end of the script and the rest is
+kept as it is) -/
+theorem C04_findAndDelete_eq (script sig : Bytes) (hl : sig.length < 2 ^ 32) :
     deleteSignature script sig = .ok (findAndDelete script (pushData sig)) :=
-  deleteSignature_eq_findAndDelete script sig hc hl
+  deleteSignature_eq_findAndDelete script sig hl
 
-theorem filter_flatten_le (l : List Bytes) (p : Bytes → Bool) : (l.filter p).flatten.length ≤ l.flatten.length := by
-  induction l with
-  | nil => simp
-  | cons a as ih =>
-    simp only [List.filter_cons]
-    split <;> simp only [List.flatten_cons, List.length_append] <;> omega
+/-- C04.findAndDelete_eq for the signature list of a CHECKMULTISIG -/
+theorem C04_findAndDelete_list_eq (script : Bytes) (sigs : List Bytes) (hl : ∀ s ∈ sigs, s.length < 2 ^ 32) :
+    deleteSignatures script sigs = .ok (scriptCodeFor script sigs) :=
+  deleteSignatures_eq_scriptCodeFor sigs script hl
+
+/-- C04.findAndDelete_complete: removing signature pushes keeps complete pushes complete, leaves the undecodable rest of
+the script alone, and never lengthens the script -/
+theorem C04_findAndDelete_complete (script : Bytes) (sigs : List Bytes) (hl : ∀ s ∈ sigs, s.length < 2 ^ 32) :
+    (Complete script → Complete (scriptCodeFor script sigs)) ∧
+    (TailWritten script → TailWritten (scriptCodeFor script sigs)) ∧
+    (scriptCodeFor script sigs).length ≤ script.length :=
+  scriptCodeFor_facts sigs script hl
 
 theorem sha_false : sha false = Pycoin.Hash.dsha256 := by
   funext b; simp [sha]
 
-/-- C04.closure_eq (partial: the extra hypothesis `hc2` — the script left by FindAndDelete has complete pushes —
-follows from `hc` but is not derived here): the closure of `_make_sighash_f` with one signature to remove (CHECKSIG)
-is FindAndDelete followed by the legacy digest -/
-theorem C04_closure_eq_partial (c : Coin) (hc' : requiresForkId c = false) (hd : closureDeletesSigs c = true) (tx : Tx)
-    (us : List (Option TxOut)) (hwf : tx.WF) (idx : Nat) (hidx : idx < tx.ins.length) (script sig : Bytes)
-    (hc : Complete script) (hc2 : Complete (findAndDelete script (pushData sig))) (hlen : LenOk script)
-    (hl : sig.length < 2 ^ 32) (ht : Nat) (hht : ht < 2 ^ 32) :
-    sighashF c tx us script [sig] idx ht =
-      .ok (beNat (signatureHashLegacy (sha (legacySingleSha c)) tx idx (scriptCodeFor script [sig]) ht)) := by
-  have hlen2 : LenOk (findAndDelete script (pushData sig)) := by
-    have h1 := deleteSignature_eq_findAndDelete script sig hc hl
-    obtain ⟨h2, h3⟩ := deleteSignature_subscript sig hl
-    unfold deleteSignature at h1
-    rw [h2] at h1
-    simp only [h3] at h1
-    rw [deleteSubscript_complete script _ hc] at h1
-    have h4 := Except.ok.inj h1
-    rw [← h4]
-    have h5 := instrSections_flatten script hc
-    have := filter_flatten_le (instrSections script) (fun s => decide (s ≠ pushData sig))
-    rw [h5] at this
-    unfold LenOk at hlen ⊢
-    omega
+/-- C04.closure_scriptcode, for **every** script: the closure of `_make_sighash_f` hands `_signature_hash` the script
+code consensus computes (`FindAndDelete` of every signature push; Bitcoin Cash: the script as it stands) -/
+theorem C04_closure_scriptcode (c : Coin) (tx : Tx) (us : List (Option TxOut)) (script : Bytes) (sigs : List Bytes)
+    (hl : ∀ s ∈ sigs, s.length < 2 ^ 32) (idx ht : Nat) :
+    sighashF c tx us script sigs idx ht =
+      signatureHash c tx us (if closureDeletesSigs c then scriptCodeFor script sigs else script) idx ht := by
   unfold sighashF
-  simp only [hd, if_true, deleteSignatures, deleteSignature_eq_findAndDelete script sig hc hl]
-  rw [C04_legacy_digest_eq c hc' tx us hwf idx hidx _ hc2 hlen2 ht hht]
-  rfl
+  cases closureDeletesSigs c with
+  | true => simp [deleteSignatures_eq_scriptCodeFor sigs script hl]
+  | false => simp
+
+/-- C04.closure_eq: the closure of `_make_sighash_f` with the signatures of a CHECKSIG / CHECKMULTISIG to remove is
+FindAndDelete followed by the legacy digest (no hypothesis about the script left by FindAndDelete: it inherits
+`TailWritten`, `Complete` and the length bound from the script) -/
+theorem C04_closure_eq (c : Coin) (hc' : requiresForkId c = false) (hd : closureDeletesSigs c = true) (tx : Tx)
+    (us : List (Option TxOut)) (hwf : tx.WF) (idx : Nat) (hidx : idx < tx.ins.length) (script : Bytes) (sigs : List Bytes)
+    (hc : TailWritten script) (hlen : LenOk script)
+    (hl : ∀ s ∈ sigs, s.length < 2 ^ 32) (ht : Nat) (hht : ht < 2 ^ 32) :
+    sighashF c tx us script sigs idx ht =
+      .ok (beNat (signatureHashLegacy (sha (legacySingleSha c)) tx idx (scriptCodeFor script sigs) ht)) := by
+  obtain ⟨_, h2, h3⟩ := scriptCodeFor_facts sigs script hl
+  have hlen2 : LenOk (scriptCodeFor script sigs) := by unfold LenOk at hlen ⊢; omega
+  rw [C04_closure_scriptcode c tx us script sigs hl idx ht, hd, if_pos rfl]
+  exact C04_legacy_digest_eq_tailWritten c hc' tx us hwf idx hidx _ (h2 hc) hlen2 ht hht
 
 /-- the witness of DESIGN.md §8 row 23: `05 ab ab` (a push of 5 bytes cut short after 2) -/
 def truncWitness : Bytes := [0x05, 0xab, 0xab]
 
-theorem truncWitness_model : deleteSubscript truncWitness Gen.Sighash.strippedSubscript = .ok [0x05, 0xab] := by
-  have h0 := getOpcodes_step_trunc truncWitness 0 0x05 [0xab, 0xab] rfl (by decide)
-  have h2 := getOpcodes_step truncWitness 2 0xab [] rfl 0xab [] [] (by decide)
-  have h3 := getOpcodes_end truncWitness 3 (by decide)
-  have e1 : Script.truncPc 0 (0x05 : UInt8).toNat [0xab, 0xab] = 2 := by decide
-  have e2 : truncWitness.length - ([] : Bytes).length = 3 := by decide
-  rw [e1] at h0
-  rw [e2, h3] at h2
-  rw [h2] at h0
-  unfold deleteSubscript sections
-  rw [h0]
-  rfl
+/-- regression (fixed: the walker stepped into the truncated push, resynchronised there and stripped the second `ab`):
+the repaired `delete_subscript` keeps `05 ab ab` as it is, and signature removal on a script ending so is FindAndDelete -/
+example : deleteSubscript truncWitness Gen.Sighash.strippedSubscript = .ok [0x05, 0xab, 0xab] := by
+  rw [(strip_serializeScriptCode_all truncWitness).1]; exact congrArg Except.ok (by decide)
+example : deleteSignature (0x01 :: 0x30 :: truncWitness) [0x30] = .ok truncWitness := by
+  rw [C04_findAndDelete_eq _ _ (by decide)]; exact congrArg Except.ok (by decide)
+example : ¬ Complete truncWitness ∧ ¬ TailWritten truncWitness ∧ TailWritten [0x51, 0x05] ∧ ¬ Complete [0x51, 0x05] := by decide
 
-/-- C04.findAndDelete_eq (refuted without the completeness hypothesis): on the script code `05 ab ab` pycoin's
-instruction walker resynchronises inside the truncated push and strips the second `ab`; `SerializeScriptCode` does not.
-(Such a script can never validate: execution fails at the truncated push.) -/
-theorem C04_findAndDelete_eq_refuted :
+/-- C04.codeseparator_strip (refuted as an equality of serialisations without `TailWritten`): for the script code
+`05 ab ab` pycoin serialises `03 05 ab ab`; Core's `SerializeScriptCode` announces three bytes and writes one, `03 05`
+(its last `write` ends where the failed `GetScriptOp` left the iterator).  No value of a `TxIn.script` serialises to
+that; such a script can never validate (execution fails at the truncated push). Recorded as known finding
+`truncated-push-short-write`. -/
+theorem C04_codeseparator_strip_refuted :
     ¬ ∀ code : Bytes, ∃ stripped, deleteSubscript code Gen.Sighash.strippedSubscript = .ok stripped ∧
       serializeScriptCode code = varBytes stripped := by
   intro h
-  obtain ⟨s, h1, h2⟩ := h truncWitness
-  rw [truncWitness_model] at h1
-  have := Except.ok.inj h1
-  subst this
-  revert h2
+  have := (C04_codeseparator_strip_iff truncWitness).mp (h truncWitness)
+  revert this
   decide
 
 /-! ## BIP143 -/
@@ -243,6 +289,136 @@ theorem C04_grs_single_sha :
   intro c hc
   cases c <;> first | exact absurd rfl hc | exact ⟨rfl, rfl, rfl⟩
 
+/-! ## every coin class, by name -/
+
+/-- C04.tx_hash_hashtype: `Tx.hash(hash_type)` of each of the five transaction classes digests the witness-free
+serialisation of the transaction followed by the hash type as four little-endian bytes … -/
+theorem C04_tx_hash_hashtype (c : Coin) (tx : Tx) (hwf : tx.WF) (ht : Nat) (hht : ht < 2 ^ 32) :
+    hashTypePreimage c tx ht = .ok (Spec.Wire.legacy tx ++ le 4 ht) := by
+  have hstream := stream_eq_spec tx hwf false
+  simp only [Bool.false_and, Bool.false_eq_true, if_false] at hstream
+  have hU : U32 (ht : Int) := ⟨by omega, by omega⟩
+  have hL := streamStruct_L_eq (ht : Int) hU
+  unfold hashTypePreimage
+  rw [hstream, c_fmt c, hL]
+  simp only [Int.toNat_natCast]
+
+/-- … with the digest the class uses for `Tx.hash()` (transaction ids): double SHA-256, single for Groestlcoin -/
+theorem C04_tx_hash_digest (c : Coin) :
+    legacySingleSha c = c.singleSha ∧ (c.singleSha = true ↔ c = .grs) := by cases c <;> exact ⟨rfl, by decide⟩
+
+theorem hashTypePreimage_ltc (tx : Tx) (ht : Nat) : hashTypePreimage .ltc tx ht = hashTypePreimage .btc tx ht := by
+  simp only [hashTypePreimage, c_fmt]
+
+theorem legacyPreimage_ltc (tx : Tx) (script : Bytes) (idx ht : Nat) :
+    Sighash.legacyPreimage .ltc tx script idx ht = Sighash.legacyPreimage .btc tx script idx ht := by
+  unfold Sighash.legacyPreimage
+  simp only [hashTypePreimage_ltc]
+
+/-- C04.ltc_eq_btc: the Litecoin class runs the Bitcoin algorithm, on every path and for every input (in scope or not) -/
+theorem C04_ltc_eq_btc (tx : Tx) (us : List (Option TxOut)) (script : Bytes) (sigs : List Bytes) (idx ht : Nat) :
+    signatureHash .ltc tx us script idx ht = signatureHash .btc tx us script idx ht ∧
+    segwitSignatureHash .ltc tx us script idx ht = segwitSignatureHash .btc tx us script idx ht ∧
+    sighashF .ltc tx us script sigs idx ht = sighashF .btc tx us script sigs idx ht ∧
+    witnessSighashF .ltc tx us script sigs idx ht = witnessSighashF .btc tx us script sigs idx ht := by
+  have h1 : ∀ script, signatureHash .ltc tx us script idx ht = signatureHash .btc tx us script idx ht := by
+    intro script
+    unfold signatureHash legacySignatureHash
+    simp only [legacyPreimage_ltc]
+    rfl
+  refine ⟨h1 script, rfl, ?_, rfl⟩
+  unfold sighashF
+  simp only [h1]
+  rfl
+
+/-- C04.btc_ltc_legacy: Bitcoin and Litecoin, pre-segwit: consensus' `SignatureHash` with double SHA-256 -/
+theorem C04_btc_ltc_legacy (c : Coin) (hc : c = .btc ∨ c = .ltc) (tx : Tx) (us : List (Option TxOut)) (hwf : tx.WF)
+    (idx : Nat) (hidx : idx < tx.ins.length) (script : Bytes) (hs : TailWritten script) (hlen : LenOk script)
+    (ht : Nat) (hht : ht < 2 ^ 32) :
+    signatureHash c tx us script idx ht =
+      .ok (beNat (signatureHashLegacy Pycoin.Hash.dsha256 tx idx script ht)) := by
+  rcases hc with rfl | rfl
+  · rw [C04_legacy_digest_eq_tailWritten .btc rfl tx us hwf idx hidx script hs hlen ht hht]
+    simp [legacySingleSha, Gen.Sighash.btc_legacySingleSha, sha_false]
+  · rw [C04_legacy_digest_eq_tailWritten .ltc rfl tx us hwf idx hidx script hs hlen ht hht]
+    simp [legacySingleSha, Gen.Sighash.ltc_legacySingleSha, sha_false]
+
+theorem sha_true : sha true = Pycoin.Hash.sha256 := by
+  funext b; simp [sha]
+
+/-- C04.grs_legacy: Groestlcoin, pre-segwit, for every hash type: the bytes digested are consensus' legacy message, the
+digest is one SHA-256 of it, and SIGHASH_SINGLE without a matching output gives the constant one -/
+theorem C04_grs_legacy (tx : Tx) (us : List (Option TxOut)) (hwf : tx.WF)
+    (idx : Nat) (hidx : idx < tx.ins.length) (script : Bytes) (hs : TailWritten script) (hlen : LenOk script)
+    (ht : Nat) (hht : ht < 2 ^ 32) :
+    Sighash.legacyPreimage .grs tx script idx ht =
+      .ok (if fHashSingle ht && decide (idx ≥ tx.outs.length) then none
+           else some (Spec.Sighash.legacyPreimage tx idx script ht)) ∧
+    signatureHash .grs tx us script idx ht =
+      .ok (beNat (signatureHashLegacy Pycoin.Hash.sha256 tx idx script ht)) := by
+  refine ⟨legacyPreimage_eq_tw .grs tx hwf idx hidx script hs hlen ht hht, ?_⟩
+  rw [C04_legacy_digest_eq_tailWritten .grs rfl tx us hwf idx hidx script hs hlen ht hht]
+  simp [legacySingleSha, Gen.Sighash.grs_legacySingleSha, sha_true]
+
+/-- C04.grs_segwit: Groestlcoin, witness v0, for every hash type: the BIP143 message with its three part hashes taken
+with one SHA-256, digested with one SHA-256 -/
+theorem C04_grs_segwit (tx : Tx) (hwf : tx.WF) (us : List (Option TxOut)) (idx : Nat)
+    (hidx : idx < tx.ins.length) (o : TxOut) (hu : us[idx]? = some (some o)) (hamt : U64 o.value) (script : Bytes)
+    (hlen : LenOk script) (ht : Nat) (hht : ht < 2 ^ 32) :
+    segwitPreimage .grs tx us script idx ht =
+      .ok (bip143Preimage Pycoin.Hash.sha256 tx idx script o.value.toNat ht) ∧
+    segwitSignatureHash .grs tx us script idx ht =
+      .ok (beNat (signatureHashBip143 Pycoin.Hash.sha256 tx idx script o.value.toNat ht)) := by
+  constructor
+  · rw [segwitPreimage_eq .grs tx hwf us idx hidx o hu hamt script hlen ht hht]
+    simp [segwitPartsSingleSha, Gen.Sighash.grs_segwitPartsSingleSha, sha_true]
+  · rw [C04_bip143_digest_eq .grs (by decide) tx hwf us idx hidx o hu hamt script hlen ht hht]
+    simp [segwitSingleSha, Gen.Sighash.grs_segwitSingleSha, sha_true]
+
+/-- C04.btc_ltc_bch_segwit: Bitcoin, Litecoin and Bitcoin Cash, `_signature_for_hash_type_segwit`: BIP143 with double
+SHA-256 (for Bitcoin Cash this is the function behind its fork-id digest, `C04_forkid_eq_bch`) -/
+theorem C04_btc_ltc_bch_segwit (c : Coin) (hc : c = .btc ∨ c = .ltc ∨ c = .bch) (tx : Tx) (hwf : tx.WF)
+    (us : List (Option TxOut)) (idx : Nat)
+    (hidx : idx < tx.ins.length) (o : TxOut) (hu : us[idx]? = some (some o)) (hamt : U64 o.value) (script : Bytes)
+    (hlen : LenOk script) (ht : Nat) (hht : ht < 2 ^ 32) :
+    segwitSignatureHash c tx us script idx ht =
+      .ok (beNat (signatureHashBip143 Pycoin.Hash.dsha256 tx idx script o.value.toNat ht)) := by
+  have hne : c ≠ .btg := by rcases hc with rfl | rfl | rfl <;> decide
+  rw [C04_bip143_digest_eq c hne tx hwf us idx hidx o hu hamt script hlen ht hht]
+  rcases hc with rfl | rfl | rfl <;>
+    simp [segwitSingleSha, Gen.Sighash.btc_segwitSingleSha, Gen.Sighash.ltc_segwitSingleSha, Gen.Sighash.bch_segwitSingleSha,
+      sha_false]
+
+/-! ## SIGHASH_SINGLE without a matching output, under each class -/
+
+/-- C04.single_out_of_range (legacy; Bitcoin, Litecoin, Groestlcoin): with base type SIGHASH_SINGLE and no output at the
+input's position `_signature_hash` returns `1 << 248` — the integer of consensus' `uint256::ONE` bytes — for **every**
+transaction, script code and value of the other hash-type bits, in range or not: nothing is digested -/
+theorem C04_single_out_of_range (c : Coin) (hc : requiresForkId c = false) (tx : Tx) (us : List (Option TxOut))
+    (script : Bytes) (idx ht : Nat) (hs : fHashSingle ht = true) (hidx : idx ≥ tx.outs.length) :
+    signatureHash c tx us script idx ht = .ok (2 ^ 248) ∧ (2 ^ 248 : Nat) = beNat Spec.Sighash.one := by
+  refine ⟨?_, by rw [beNat_one]; decide⟩
+  have h3 : ht &&& 0x1f = 3 := by simpa [fHashSingle, SIGHASH_SINGLE] using hs
+  have hnone : tx.outs[idx]? = none := List.getElem?_eq_none hidx
+  unfold signatureHash legacySignatureHash Sighash.legacyPreimage
+  simp only [hc, Bool.false_eq_true, if_false, (strip_serializeScriptCode_all script).1]
+  unfold legacyTmpTx blank
+  have hv : Gen.Sighash.singleBugValue = 2 ^ 248 := by decide
+  simp [c_mask, c_none, c_single, h3, hnone, hv]
+
+/-- C04.single_out_of_range (BIP143: witness inputs of every class, every input of Bitcoin Cash and Bitcoin Gold): no
+constant; the message is built as usual with hashOutputs = 32 zero bytes, in pycoin (`_hash_outputs`) as in BIP143 -/
+theorem C04_single_out_of_range_bip143 (c : Coin) (H : Bytes → Bytes) (tx : Tx) (idx ht : Nat)
+    (hs : fHashSingle ht = true) (hidx : idx ≥ tx.outs.length) :
+    Sighash.hashOutputs c tx ht idx = .ok zero32 ∧ Spec.Sighash.hashOutputs H tx idx ht = Spec.Sighash.zero32 := by
+  have h3 : ht &&& 0x1f = 3 := by simpa [fHashSingle, SIGHASH_SINGLE] using hs
+  have hnone : tx.outs[idx]? = none := List.getElem?_eq_none hidx
+  constructor
+  · unfold Sighash.hashOutputs
+    simp [parts_eq, h3, c_single, hidx]
+  · unfold Spec.Sighash.hashOutputs
+    simp [hs, hnone]
+
 /-! ## purity -/
 
 /-- C04.sighash_pure: the call returns a digest (or raises) and leaves the transaction and its unspents as they were;
@@ -266,5 +442,11 @@ def exUs : List (Option TxOut) := [some ⟨7, [0x51]⟩, some ⟨8, []⟩, some 
 #guard (match signatureHash .bch exTx exUs exCode 0 0x01 with | .error .scriptError => true | _ => false)
 #guard (match segwitSignatureHash .btg exTx exUs exCode 0 0x01 with | .error .scriptError => true | _ => false)
 #guard (match deleteSignature [0x51, 0x02, 0x30, 0x01, 0xac] [0x30, 0x01] with | .ok b => b == [0x51, 0xac] | _ => false)
+
+#guard decide (TailWritten exCode) && decide (TailWritten [0x51, 0x4c]) && !decide (TailWritten [0x51, 0x4d, 0x05])
+#guard (match signatureHash .grs exTx exUs exCode 2 0x03, signatureHash .ltc exTx exUs exCode 2 0xc3 with
+  | .ok a, .ok b => a == 2 ^ 248 && b == 2 ^ 248 | _, _ => false)
+#guard (match deleteSignatures [0x51, 0x01, 0x30, 0x01, 0x31, 0x05, 0x01, 0x30] [[0x30], [0x31]] with
+  | .ok b => b == [0x51, 0x05, 0x01, 0x30] && b == scriptCodeFor [0x51, 0x01, 0x30, 0x01, 0x31, 0x05, 0x01, 0x30] [[0x30], [0x31]] | _ => false)
 
 end Pycoin.Sighash
